@@ -229,7 +229,7 @@ def to_terms(x, dtype=None) -> np.ndarray:
     else:
         raise Unsupported(f"to_terms {type(x)}")
     if dtype is not None and src != dtype:
-        a = vmap(lambda t: T.cast(t, dtype), a)
+        a = vmap(lambda t: T.cast(t, dtype, src), a)
     return a
 
 
@@ -1100,12 +1100,12 @@ def _arg_reduce(A, axis, better):
     out_v = _obj(moved.shape[:-1])
     out_i = _obj(moved.shape[:-1])
     for idx in np.ndindex(*moved.shape[:-1]):
-        bv, bi = moved[idx][0], z3.IntVal(0)
+        bv, bi = moved[idx][0], T.const_of(0, torch.int64)
         for k in range(1, moved.shape[-1]):
             x = moved[idx][k]
             c = better(x, bv)
             bv = T.mk_ite(c, x, bv)
-            bi = T.mk_ite(c, z3.IntVal(k), bi)
+            bi = T.mk_ite(c, T.const_of(k, torch.int64), bi)
         out_v[idx] = bv
         out_i[idx] = bi
     return out_v, out_i
